@@ -165,14 +165,14 @@ class Traces:
             return [val.subst(F)]
         if fam == 'matrix':
             N = sl['vecs'][0]
-            s = Poly.const(0, d)
+            s = Poly.const(0, d + self.nscale)
             for a in range(d):
                 for c in range(d):
                     s = s + val[a][c] * (N[a] * N[c])
             return [s.subst(F)]
         out = []
         for vec in sl['vecs']:
-            s = Poly.const(0, d)
+            s = Poly.const(0, d + self.nscale)
             for comp, c in zip(val, vec):
                 s = s + comp * c
             out.append(s.subst(F))
@@ -237,9 +237,59 @@ Require Import Base.C09_Poly Base.C09_PolyQ Model.C09_Elem Model.C03_Trace.
 REQUIRED_SYMS = {'RefTri': 'identity', 'RefQuad': 'all', 'RefTet': 'all', 'RefHex': 'all'}
 
 
-# own gbasis with an orientation-dependent swap / negation of the edge functions: conformity by oracle only
-TRACE_SPECIAL = {'ElementTriN3': 'own gbasis (element_tri_n3.py:35-96) swaps and negates edge functions depending on the '
-                                 'orientation; the raw lbasis traces are not slot-uniform by design'}
+# own gbasis with an orientation-dependent swap / negation of the edge functions: the trace lemma is stated for the
+# EFFECTIVE reference basis sign_i * lbasis(idx_i) that the real gbasis uses when every orientation sign is +1 (which is
+# the case on sorted triangle meshes, theorem C03_sorted_cells_orientation_plus); the table is measured on the real code
+TRACE_SPECIAL = {'ElementTriN3': 'own gbasis (element_tri_n3.py) swaps and negates edge functions depending on the orientation'}
+
+
+def effective_table(cls, orient):
+    """run the REAL gbasis of the class for every local index with a stub mapping (invDF = identity, detDF = 1), a
+    constant orientation sign and an lbasis that returns numeric tags: returns [(sign, idx)] with
+    gbasis(i) = orient * sign * lbasis(idx) — for value and curl alike (else TranslateError)"""
+    import numpy as np
+
+    class StubMapping:
+        def invDF(self, X, tind=None):
+            return np.eye(2)[:, :, None, None] * np.ones((1, 1, 1, X.shape[-1]))
+
+        def DF(self, X, tind=None):
+            return self.invDF(X, tind)
+
+        def detDF(self, X, tind=None):
+            return np.ones((1, X.shape[-1]))
+    X = np.array([[0.3], [0.2]])
+    nb = int(sum(cls()._bfun_counts()))
+    out = []
+    for i in range(nb):
+        e = cls()
+        e.orient = lambda mapping, j, tind=None: np.array([orient])
+        e.lbasis = lambda Xp, idx: (np.array([[idx + 1.0] * Xp.shape[-1], [0.0] * Xp.shape[-1]]), np.full(Xp.shape[-1], idx + 1.0))
+        try:
+            f = e.gbasis(StubMapping(), X, i)[0]
+        except Exception as ex:  # noqa
+            raise TranslateError(f'{cls.__name__}.gbasis({i}) on the tagged stub raised {type(ex).__name__}: {ex}')
+        v = float(np.asarray(f)[0, 0, 0]) / orient
+        c = float(np.asarray(f.curl)[0, 0]) / orient
+        if v != c or abs(v) != int(abs(v)) or not 1 <= abs(v) <= nb or float(np.asarray(f)[1, 0, 0]) != 0.0:
+            raise TranslateError(f'{cls.__name__}.gbasis({i}): not +-(one reference function) (value tag {v}, curl tag {c})')
+        out.append((Fr(1) if v > 0 else Fr(-1), int(abs(v)) - 1))
+    return out
+
+
+class EffectiveTranslated:
+    """the effective reference basis of a TRACE_SPECIAL class for orientation +1"""
+
+    def __init__(self, tr, table):
+        self.name = tr.name + '_eff'
+        self.label = tr.name
+        self.base = tr
+        self.table = table
+        self.elem, self.dim, self.family, self.doflocs = tr.elem, tr.dim, tr.family, tr.doflocs
+        self.basis = []
+        for sg, idx in table:
+            val, cl = tr.basis[idx]
+            self.basis.append(([q * sg for q in val], cl * sg))
 
 
 def generate(translated, conforming, known_keys=()):
@@ -249,14 +299,26 @@ def generate(translated, conforming, known_keys=()):
     src_of = {}
     names, sym_names, sym_refuted, uni_names, uni_refuted = [], [], [], [], []
     shift_refuted = []
+    eff_names = []
     for n, tr in translated.items():
         label = getattr(tr, 'label', n)
         if label not in conforming:
             info['skipped'][n] = 'no continuity claim (discontinuous / non-conforming by construction)'
             continue
+        eff_txt = ''
         if n in TRACE_SPECIAL:
-            info['skipped'][n] = TRACE_SPECIAL[n]
-            continue
+            tab_plus = effective_table(type(tr.elem), +1)
+            tab_minus = effective_table(type(tr.elem), -1)
+            info.setdefault('effective_tables', {})[n] = {'orient=+1': [[str(a), b] for a, b in tab_plus],
+                                                          'orient=-1': [[str(a), b] for a, b in tab_minus], 'why': TRACE_SPECIAL[n]}
+            base_name = n
+            tr = EffectiveTranslated(tr, tab_plus)
+            n = tr.name
+            tab = '[' + '; '.join(f'({cq(a)}, {b}%nat)' for a, b in tab_plus) + ']'
+            eff_txt = (f'Definition {n}_e : elem :=\n  {c09_gen.celem(tr)}.\n\n'
+                       f'Definition {n}_x : elem * list (Q * nat) * elem := ({base_name}_e, {tab}, {n}_e).\n'
+                       f'Lemma {n}_matches : eff_matches {n}_x = true.\nProof. vm_compute. reflexivity. Qed.\n')
+            eff_names.append(n)
         try:
             T = Traces(tr)
         except TranslateError as ex:
@@ -269,7 +331,7 @@ def generate(translated, conforming, known_keys=()):
         slots = '[' + ';\n    '.join(cslot(sl) for sl in T.slots) + ']'
         allsyms = '[' + ';\n    '.join(csym(s) for s in T.syms) + ']'
         reqsyms = '[' + ';\n    '.join(csym(s) for s in syms) + ']'
-        txt = [f'Definition {n}_t : telem :=\n  mkTelem {n}_e\n    {psi}\n    {slots}\n    {reqsyms}.\n',
+        txt = ([eff_txt] if eff_txt else []) + [f'Definition {n}_t : telem :=\n  mkTelem {n}_e\n    {psi}\n    {slots}\n    {reqsyms}.\n',
                f'Definition {n}_allsyms : list fsym :=\n  {allsyms}.\n',
                f'Lemma {n}_traces : telem_traces_ok {n}_t = true.\nProof. vm_compute. reflexivity. Qed.\n']
         names.append(n)
@@ -295,15 +357,15 @@ def generate(translated, conforming, known_keys=()):
                 sym_names.append(n)
         else:
             comp = {'hdiv': 'normal-component', 'hcurl': 'tangential-component', 'matrix': 'normal-normal-component'}[tr.family]
-            key = f'elem={n}:{comp}-jump'
+            key = c03_oracle.fail_key(label, f'{comp}-jump')
             if key in known_keys and not T.signs_uniform():
                 txt.append(f'Lemma {n}_signs_refuted : signs_uniform (t_slots {n}_t) = false.\nProof. vm_compute. reflexivity. Qed.\n')
                 uni_refuted.append(n)
             else:
                 txt.append(f'Lemma {n}_signs : signs_uniform (t_slots {n}_t) = true.\nProof. vm_compute. reflexivity. Qed.\n')
                 uni_names.append(n)
-        grp = 'C03_T_Legendre' if hasattr(tr, 'label') else 'C03_T_' + rdn
-        src_of[grp] = ('C09_P_' + type(tr.elem).__name__) if hasattr(tr, 'label') else ('C09_E_' + rdn)
+        grp = getattr(tr, 'c03_group', 'C03_T_' + rdn)
+        src_of[grp] = getattr(tr, 'src_group', 'C09_E_' + rdn)
         groups.setdefault(grp, []).append((n, '\n'.join(txt)))
         info['elements'].append(el)
     chunks = {}
@@ -322,6 +384,8 @@ def generate(translated, conforming, known_keys=()):
             'Definition vector_uniform_elements : list telem :=\n  [' + '; '.join(f'{n}_t' for n in uni_names) + '].\n',
             'Definition h1_symmetry_refuted : list telem :=\n  [' + '; '.join(f'{n}_t' for n in sym_refuted) + '].\n',
             'Definition vector_uniform_refuted : list telem :=\n  [' + '; '.join(f'{n}_t' for n in uni_refuted) + '].\n',
+            'Definition effective_bases : list (elem * list (Q * nat) * elem) :=\n  [' + '; '.join(f'{n}_x' for n in eff_names) + '].\n',
+            forall_lemma('effective_bases_ok', 'eff_matches t = true', 'effective_bases', eff_names, 'matches'),
             'Definition quadp_shift_refuted : list (telem * (fsym * fsym * list Q * list Q)) :=\n  ['
             + '; '.join(f'{n}_shift' for n in shift_refuted) + '].\n',
             forall_lemma('quadp_shift_refuted_ok', 'shift_refuted_ok t = true', 'quadp_shift_refuted', shift_refuted, 'shift_jump'),
